@@ -6,7 +6,7 @@ From Grog Require Import Str Label Graph Select.
 Extraction Language OCaml.
 Extraction "model.ml" Label.parse_label Label.print_label Label.parse_patterns_or_all Label.parse_patterns
   Graph.chain Graph.ladder Graph.topob Graph.wf_graphb Graph.deps Graph.dependants
-  Select.select_for_build Select.selected_count Select.platform_skipped Select.select_targets
+  Select.select_for_build Select.select_for_build_spec Select.selected_count Select.platform_skipped Select.select_targets
   Select.spec_roots Select.roots
   Select.ancestors_paths Select.descendants_paths Select.ancestors_set Select.descendants_set
   Select.ancestors_paths_c Select.descendants_paths_c Select.select_marks_c
